@@ -114,6 +114,24 @@ Theorem missing_category_conversion :
 Proof. exact (conj neg_to_nan_missing (conj neg_to_nan_other keep_int_all)). Qed.
 Print Assumptions missing_category_conversion.
 
+(* 5b. BOUNDED EXACTNESS of the float32 casts in the XGBoost adapter
+       (tuned_xgboost.py: neg_to_nan's `.to(torch.float32)` when the block contains a -1,
+       and torch.cat's dtype promotion of the int64 block next to a float32 block):
+       to_xgboost_input_f32 models them with round-to-nearest-even on a 24-bit
+       significand.  While every category code is at most 2^24 in magnitude the casts
+       change nothing, i.e. the value-level model of 1-5 is exact.  Beyond the bound it is
+       not (Example float32_rounds_beyond_bound): a categorical entry is a frequency-rank
+       index below the number of categories, so this needs > 16.7 million categories. *)
+Theorem xgboost_float32_casts_exact_up_to_2_24 : forall num_is_f64 tf,
+  (forall c r z, tf_cat tf = Some c -> In r (f_rows c) -> In z r -> (Z.abs z <= 2 ^ 24)%Z) ->
+  to_xgboost_input_f32 num_is_f64 tf = to_xgboost_input tf.
+Proof. exact xgboost_f32_exact. Qed.
+Print Assumptions xgboost_float32_casts_exact_up_to_2_24.
+
+Theorem float32_of_small_integers : forall z, (Z.abs z <= 2 ^ 24)%Z -> f32_of_Z z = z.
+Proof. exact f32_exact. Qed.
+Print Assumptions float32_of_small_integers.
+
 (* 6. a frame with none of the three stypes is rejected by all three adapters *)
 Theorem empty_frame_rejected : forall tf,
   tf_cat tf = None -> tf_num tf = None -> tf_emb tf = None ->
@@ -316,3 +334,14 @@ Proof.
   split; [repeat constructor; simpl; intuition discriminate|].
   split; [apply perm_swap|]. split; vm_compute; reflexivity.
 Qed.
+
+(* 5b: the bound is sharp, ties go to even, and the cast only happens next to a -1 or a
+   float32 block *)
+Example float32_rounds_beyond_bound :
+  f32_of_Z (2 ^ 24 + 1) = (2 ^ 24)%Z /\ f32_of_Z (2 ^ 24 + 3) = (2 ^ 24 + 4)%Z /\
+  f32_of_Z (- (2 ^ 24 + 1)) = (- 2 ^ 24)%Z /\ f32_of_Z (2 ^ 24) = (2 ^ 24)%Z /\
+  cat_block_f32 false false [[16777217; -1]]%Z = [[q 16777216 1; None]] /\
+  cat_block_f32 true false [[16777217; 3]]%Z = [[q 16777216 1; q 3 1]] /\
+  cat_block_f32 false false [[16777217; 3]]%Z = [[q 16777217 1; q 3 1]] /\
+  cat_block_f32 true true [[16777217; 3]]%Z = [[q 16777217 1; q 3 1]].
+Proof. repeat split; vm_compute; reflexivity. Qed.
